@@ -1,5 +1,5 @@
 """Property -> rules mapping."""
-from .rules import cfg, conv, det, errsel, fmtdec, fmtparse, hdr, hyg, idx, ops, rawid, shape, split
+from .rules import attrs, cfg, conv, det, errsel, fmtdec, fmtparse, hdr, hyg, idx, ops, rawid, shape, split
 
 PROPS = {}
 
@@ -106,3 +106,5 @@ prop("C13", [shape.rule_from_str, rawid.rule_raw_id], meta={"explanation": "wip"
 prop("C14", [shape.rule_delegation, errsel.rule_view_defs, idx.rule_idx_space], meta={"explanation": "wip"})
 
 prop("C16", [split.rule_split_table, split.rule_alias_test, fmtdec.rule_tpl_verb], meta={"explanation": "wip"})
+
+prop("C17", [attrs.rule_legacy_attr_parser, attrs.rule_typed_attrs, attrs.rule_attr_positions, conv.rule_merge_symmetry], meta={"explanation": "wip"})
